@@ -121,10 +121,24 @@ func openStorage(dir string, opt Options) (*storage, error) {
 	if s.log, err = log.Open(filepath.Join(dir, "log"), 0700, logOpt); err != nil {
 		return nil, err
 	}
-	if s.log.LastIndex() < s.snaps.index {
+	resetLog := s.log.LastIndex() < s.snaps.index
+	if !resetLog && s.snaps.index > s.log.PrevIndex() {
+		// log still has the entry at snapshot index. if its term
+		// differs from snapshot term, the log was about to be
+		// discarded for this snapshot
+		data, err := s.log.Get(s.snaps.index)
+		if err != nil {
+			return nil, opError(err, "Log.Get(%d)", s.snaps.index)
+		}
+		e := &entry{}
+		if err := e.decode(bytes.NewReader(data)); err != nil {
+			return nil, opError(err, "Log.Get(%d).decode", s.snaps.index)
+		}
+		resetLog = e.term != s.snaps.term
+	}
+	if resetLog {
 		// we died after storing a snapshot received from leader,
-		// but before the log was reset to it. snapshot covers all
-		// entries in the log. so finish the reset
+		// but before the log was reset to it. finish the reset
 		if err = s.log.Reset(s.snaps.index); err != nil {
 			return nil, opError(err, "Log.Reset(%d)", s.snaps.index)
 		}
